@@ -25,7 +25,7 @@ PROP_RULE = ("a case is (dataset split into before/update parts, SELECT text) fr
 
 KINDS = ["fresh", "stale", "empty", "zeros", "large", "swapped", "huge", "big"]
 OVERFLOW_KINDS = ("large", "huge", "big")
-PLAN_DEPENDENT = {"undef-filter-sibling", "bind-target-sibling"}
+PLAN_DEPENDENT = {"undef-filter-sibling", "bind-target-sibling", "memo-key-collision"}
 FINDING_OF = {"undef-filter-sibling": "C02-undef-filter-plan-dependence", "bind-target-sibling": "C02-bind-target-plan-dependence"}
 REQ = C1.REQ
 
@@ -106,31 +106,7 @@ def gen_cases(ctx, n):
     return cases, ops
 
 
-def has_apostrophe_constant(q):
-    """the class of C02-memo-key-collision: a FILTER constant containing `'`"""
-    found = [False]
-
-    def ex(e):
-        if e[0] == "cmp":
-            if e[3][0] == "c" and "'" in e[3][1]:
-                found[0] = True
-        elif e[0] == "not":
-            ex(e[1])
-        else:
-            ex(e[1]); ex(e[2])
-
-    def walk(e):
-        if e[0] in ("group", "union"):
-            for x in e[1]:
-                walk(x)
-        elif e[0] == "graph":
-            walk(e[2])
-        elif e[0] == "sub":
-            walk(e[1]["where"])
-        elif e[0] == "filter":
-            ex(e[1])
-    walk(q["where"])
-    return found[0]
+has_apostrophe_constant = L.has_apostrophe_constant
 
 
 def driver_case(c):
@@ -178,6 +154,8 @@ def evaluate(ctx, binpath, cases, stream, threads, coq=True, known_seen=None):
         q = c["q"]
         im = base[i]
         classes, wellscoped = L.classify(q)
+        if has_apostrophe_constant(q):
+            classes = classes | {"memo-key-collision"}
         case_out = {"ds": c["ds"], "ds_before": c["ds_before"], "ds_update": c["ds_update"], "q": q, "query": c["query"]}
         if not wellscoped:
             continue
@@ -209,7 +187,9 @@ def evaluate(ctx, binpath, cases, stream, threads, coq=True, known_seen=None):
                                dict(case_out, impl_logical=im.get("logical")))
                 for k, ok in zip(c["vkinds"], oks):
                     st["plans_validated"] += 1
-                    if not ok:
+                    if not ok and "memo-key-collision" in classes:
+                        st["memo_key_collisions_known"] = st.get("memo_key_collisions_known", 0) + 1
+                    elif not ok:
                         ctx.broken("correspondence", stream + ":implements",
                                    "under %s statistics the optimizer emitted a plan outside the `implements` relation (coq/Sparql/PlanEquiv.v): either it learned a new rewrite or it is wrong" % k,
                                    dict(case_out, impl_logical=im.get("logical"), impl_physical=im["plans"][k], statistics=k))
